@@ -16,7 +16,14 @@ TRUSTED = ['the frame clause is checked metamorphically: the same Wordnet argume
 def run(rep, tier, build, replay=None):
     def orc(rep_, cx, case, stats):
         dboracles.oracle_scope(rep_, cx, case)
-    unis, shards, outs = dbfam.run_family(rep, tier, 'C04', 4, [orc], 30, 450)
+        dboracles.oracle_relations(rep_, cx, case, stats)     # relation targets (and multi-hop closures) stay in scope
+
+    def tweak(rng_, u):
+        u['interleave'] = True
+        for c in u['configs']:
+            if rng_.random() < 0.5:
+                c['expand'] = ''
+    unis, shards, outs = dbfam.run_family(rep, tier, 'C04', 4, [orc], 40, 450, tweak)
     # ---- frame: adding / removing lexicons outside the selection and its expand set changes nothing
     rng = random.Random(common.seed() * 7919 + 44)
     n = 14 if tier == 'quick' else 200
